@@ -59,8 +59,8 @@ def _walk(spec_content, inst_scope, path, top, ignore, ser, recs, subs, includes
             _walk(s['c'], i, path + [s['n']], top, ignore, ser, recs, subs, includes)
         return
     mv = modvar(full, top)
-    if len(full) > len(top):
-        subs.append((mv, modvar(full[:-1], top), path[-1]))
+    if len(full) > len(top) and (mv, modvar(full[:-1], top), path[-1]) not in subs:
+        subs.append((mv, modvar(full[:-1], top), path[-1]))     # a re-opened namespace is one submodule
     spec_classes = {}
     for d in spec_content:
         if d['k'] == 'class':
